@@ -121,6 +121,15 @@ def record_case(cid, T, ops, mods, seed, origin='tlc', shuffle=True, exotic=True
     atoms = treeio.Atoms(seed, exotic=exotic, protect=protect)
     root = treeio.build(_join_labels(T), mods, atoms, rnd if shuffle else None)
     root.data['sid'] = 1
+    # provenance: every fifth tree has been written once before it is transformed (a script that saves the
+    # original first); the export writer leaves its node numbering in the node data of every constituent
+    prewritten = seed % 5 == 3
+    if prewritten:
+        try:
+            with contextlib.redirect_stdout(io.StringIO()), contextlib.redirect_stderr(io.StringIO()):
+                mods['treeoutput'].export(root, io.StringIO())
+        except Exception:
+            prewritten = False
     dmp = treeio.Dumper(atoms, lab_chars=True)
     G0 = dmp.dump(root)
     events = []
@@ -174,7 +183,7 @@ def record_case(cid, T, ops, mods, seed, origin='tlc', shuffle=True, exotic=True
         while len(g['nodes']) < n:
             g['nodes'].append(dead_record(dmp))
     return {'id': cid, 'origin': origin, 'init': G0, 'events': events,
-            'wc': [[w, list(c)] for (w, c) in wc], 'sibling_first': seed % 2 == 1}
+            'wc': [[w, list(c)] for (w, c) in wc], 'sibling_first': seed % 2 == 1, 'prewritten': prewritten}
 
 
 def dead_record(dmp):
